@@ -94,6 +94,41 @@ def constraint_hierarchy(ctx, system, t, q, u, u_dot, la, label, names=None, ext
         if okw:
             Wf = getattr(S, n["W"])
             jac(ctx, f"{label}.{n['Wla_q']}", J, lambda x: dense(Wf(t, x)) @ la, q, {**ex, "la": la}, key_fn, mon="D:Wla_q")
+    # ---- the same state again: values must not depend on what was evaluated before
+    argmap = {"g": (t, q), "g_dot": (t, q, u), "g_ddot": (t, q, u, u_dot), "W": (t, q), "g_q": (t, q), "g_dot_q": (t, q, u), "g_dot_u": (t, q), "Wla_q": (t, q, la)}
+    calls = [(n[k], (lambda f=getattr(S, n[k]), a=argmap[k]: f(*a))) for k in ("Wla_q", "W", "g_dot_u", "g_dot", "g_q", "g_ddot", "g_dot_q", "g") if n.get(k) and hasattr(S, n[k])]
+    repeat_consistency(ctx, label, calls, extra=ex)
+
+
+def repeat_consistency(ctx, label, calls, extra=None, mon="REPEAT"):
+    """call-history monitor on System methods: every (name, thunk) is evaluated once, then all of them again in reverse and
+    in forward order at the SAME arguments; the values must not change (1e-12 relative). Catches results that depend on what
+    was evaluated before at that state - e.g. a kinematic array held in a one-entry cache and updated in place by a caller."""
+    first = {}
+    for name, f in calls:
+        try:
+            first[name] = np.array(dense(f()), dtype=float)
+        except Exception:
+            continue          # availability / exceptions are judged by the primary monitors
+    bad = set()
+    for order in (list(reversed(calls)), list(calls)):
+        for name, f in order:
+            if name not in first or name in bad:
+                continue
+            ctx.mon(mon)
+            try:
+                y = np.array(dense(f()), dtype=float)
+            except Exception as e:
+                bad.add(name)
+                ctx.violation(f"{label}.{name}", "repeated evaluation at the same state raises although the first one succeeded", {**(extra or {}), "error": f"{type(e).__name__}: {e}"[:200]})
+                continue
+            a = first[name]
+            if y.shape != a.shape or (a.size and np.abs(y - a).max() > 1e-12 * (1.0 + np.abs(a).max())):
+                bad.add(name)
+                ctx.violation(f"{label}.{name}", "repeated evaluation at the same state returns different values (the result depends on the call history)",
+                              {**(extra or {}), "max_abs_change": float(np.abs(y - a).max()) if y.shape == a.shape and a.size else None,
+                               "evaluated_before": [n_ for n_, _ in order[:order.index((name, f))]][-6:]})
+    return not bad
 
 
 def jac_call(ctx, site, claimed_fn, f, x, extra=None, key_fn=None, mon=None, exc_key_fn=None, floor=1e-6):
